@@ -42,11 +42,11 @@ var polluters = map[string]string{
 	// not a program: the INPUT-VARIABLE TEXT of a request (exec.ExecVarInputText, as the playground handler evaluates it)
 	"varInputInc": "甲 = 以数值（自增：5）；乙 = 数值",
 	// names declared inside the body of a redefined constructor of a predefined type (that body runs in a frame of the native-code module)
-	"ctorDeclare": "如何新建异常？\n    输入文\n    如何内助？\n        输出“leak”\n    定义内类：\n        其p = 1\n    令丑 = （内助）\n令错 = （新建异常：“x”）\n令错二 = （新建异常：“y”）\n输出1\n",
+	"ctorDeclare": "如何新建异常？\n    输入文\n    如何内助？\n        输出“leak”\n    定义内类：\n        其p = 1\n    令丑 = （内助）\n令错 = （新建异常：“x”）\n输出1\n",
 }
 
 // second probe program: declares names of its own inside the body of ITS redefinition of 异常's constructor, and uses them
-const isoProbe2 = "如何新建异常？\n    输入文\n    如何内助？\n        输出“mine”\n    定义内类：\n        其p = 2\n    令物 = （新建内类）\n    如果（内助） /= “mine”：\n        令丑 = 1 / 0\n    如果物之p /= 2：\n        令寅 = 1 / 0\n令错 = （新建异常：“x”）\n令错二 = （新建异常：“y”）\n输出“own-names”\n"
+const isoProbe2 = "如何新建异常？\n    输入文\n    如何内助？\n        输出“mine”\n    定义内类：\n        其p = 2\n    令物 = （新建内类）\n    如果（内助） /= “mine”：\n        令丑 = 1 / 0\n    如果物之p /= 2：\n        令寅 = 1 / 0\n令错 = （新建异常：“x”）\n输出“own-names”\n"
 
 // the probe's own input-variable text
 const isoVarProbe = "丙 = 数值 + 1"
